@@ -1,7 +1,7 @@
 """Registry: obligation id -> spec, property id -> obligations it is decided by."""
-from . import uni, out, io, tok, nl
+from . import uni, out, io, tok, nl, cfg
 
-MODS = (uni, out, io, tok, nl)
+MODS = (uni, out, io, tok, nl, cfg)
 OBLIGATIONS = {}
 for mod in MODS:
     for ob in mod.OBLIGATIONS:
